@@ -1,1 +1,245 @@
-// verification harness (compiled into ntp-proto/src/algorithm/mod.rs under cfg(all(test, pendulum_project_ntpd_rs_verif)))
+// Harness for spec/Measure.tla (C05): every exchange enumerated by TLC at W = 8 is evaluated on the real code under the
+// embeddings of DESIGN.md 5.1 ("hi": T * 2^56 - era wrap; "lo": base + T with true small differences - rounding of the
+// halving, 64-bit era boundary and sign boundary between the timestamps) along three paths:
+//   direct  Measurement pair -> TwoWaySourceControllerWrapper::handle_measurement -> InternalMeasurement
+//   e2e     a real server-mode datagram carrying T2 / T3 -> NtpSource::handle_incoming(msg, T1, T4)
+//           (measurements_from_packet) -> the same wrapper -> InternalMeasurement
+//   oneway  Measurement -> OneWaySourceControllerWrapper::handle_measurement
+// Compiled into ntp-proto/src/algorithm/mod.rs under cfg(all(test, pendulum_project_ntpd_rs_verif)).
+#![allow(clippy::all, dead_code)]
+
+use super::{
+    InternalMeasurement, InternalSourceController, Measurement, ObservableSourceTimedata, OneWaySourceControllerWrapper, SourceController,
+    TwoWaySourceControllerWrapper,
+};
+use crate::config::{SourceConfig, SynchronizationConfig};
+use crate::source::{NtpSource, NtpSourceAction, ProtocolVersion};
+use crate::system::NtpManager;
+use crate::time_types::{NtpDuration, NtpTimestamp, PollInterval, PollIntervalLimits};
+use crate::{ClockId, NtpLeapIndicator};
+use serde_json::{Value, json};
+use std::net::{IpAddr, Ipv4Addr, SocketAddr};
+use std::sync::{Arc, Mutex};
+
+#[path = "/verif/harness/common/util.rs"]
+mod util;
+#[path = "/verif/harness/common/wire.rs"]
+mod wire;
+use util::{Rng, i, s};
+
+struct Rec<D: std::fmt::Debug + Copy + Send + 'static> {
+    last: Option<InternalMeasurement<D>>,
+    count: usize,
+}
+
+impl<D: std::fmt::Debug + Copy + Send + 'static> InternalSourceController for Rec<D> {
+    type ControllerMessage = ();
+    type SourceMessage = ();
+    type MeasurementDelay = D;
+    fn handle_message(&mut self, _m: ()) {}
+    fn handle_measurement(&mut self, m: InternalMeasurement<D>) -> Option<()> {
+        self.last = Some(m);
+        self.count += 1;
+        None
+    }
+    fn desired_poll_interval(&self) -> PollInterval {
+        PollInterval::from_byte(4)
+    }
+    fn observe(&self) -> ObservableSourceTimedata {
+        Default::default()
+    }
+}
+
+fn t(x: u64) -> NtpTimestamp {
+    NtpTimestamp::from_fixed_int(x)
+}
+fn d(x: i64) -> NtpDuration {
+    NtpDuration::from_fixed_int(x)
+}
+/// diagnostic only: the integer value of a duration (through timestamp addition)
+fn dur_int(x: NtpDuration) -> i64 {
+    u64::from_be_bytes((t(0) + x).to_bits()) as i64
+}
+
+fn meas(sender: ClockId, receiver: ClockId, s_ts: u64, r_ts: u64) -> Measurement {
+    Measurement {
+        sender_id: sender,
+        receiver_id: receiver,
+        sender_ts: t(s_ts),
+        receiver_ts: t(r_ts),
+        root_delay: d(0),
+        root_dispersion: d(0),
+        leap: NtpLeapIndicator::NoWarning,
+        precision: -20,
+    }
+}
+
+type Two = TwoWaySourceControllerWrapper<Rec<NtpDuration>>;
+
+fn two_way() -> (Two, Arc<Mutex<Rec<NtpDuration>>>, tokio::sync::mpsc::UnboundedReceiver<(ClockId, super::WrapperMessage<()>)>) {
+    let inner = Arc::new(Mutex::new(Rec { last: None, count: 0 }));
+    let (tx, rx) = tokio::sync::mpsc::unbounded_channel();
+    (TwoWaySourceControllerWrapper { id: ClockId(1), inner: inner.clone(), last_outgoing_measurement: None, messages_for_system: tx }, inner, rx)
+}
+
+struct E2e {
+    source: NtpSource<Two>,
+    inner: Arc<Mutex<Rec<NtpDuration>>>,
+    _rx: tokio::sync::mpsc::UnboundedReceiver<(ClockId, super::WrapperMessage<()>)>,
+}
+
+impl E2e {
+    fn new() -> Self {
+        let ips: Arc<[IpAddr]> = Arc::from(vec![IpAddr::V4(Ipv4Addr::new(10, 0, 0, 1))]);
+        let mgr = NtpManager::new(SynchronizationConfig::default(), ips);
+        let limits = PollIntervalLimits { min: PollInterval::from_byte(4), max: PollInterval::from_byte(10) };
+        let scfg = SourceConfig { poll_interval_limits: limits, initial_poll_interval: limits.min };
+        let (w, inner, rx) = two_way();
+        let addr = SocketAddr::new(IpAddr::V4(Ipv4Addr::new(10, 0, 0, 2)), 123);
+        let (source, _) = mgr.new_source(addr, scfg, ProtocolVersion::V4, w, None, ClockId(1));
+        E2e { source, inner, _rx: rx }
+    }
+
+    /// one exchange; returns the measurement that reached the inner controller (None: none was delivered)
+    fn exchange(&mut self, ts: [u64; 4]) -> Result<Option<InternalMeasurement<NtpDuration>>, String> {
+        let before = self.inner.lock().unwrap().count;
+        let source = &mut self.source;
+        let actions: Vec<NtpSourceAction> = util::catch(|| source.handle_timer().collect())?;
+        let Some(req) = actions.iter().find_map(|a| if let NtpSourceAction::Send(b) = a { Some(b.clone()) } else { None }) else {
+            return Ok(None);
+        };
+        let mut h = wire::Hdr::new(4, 4);
+        h.stratum = 2;
+        h.poll = req[2];
+        h.word3 = [192, 168, 7, 7];
+        h.origin = req[40..48].try_into().unwrap();
+        h.recv = ts[1].to_be_bytes();
+        h.xmit = ts[2].to_be_bytes();
+        let bytes = h.bytes();
+        let _: Vec<NtpSourceAction> = util::catch(|| source.handle_incoming(&bytes, t(ts[0]), t(ts[3])).collect())?;
+        let g = self.inner.lock().unwrap();
+        Ok(if g.count == before + 1 { g.last } else { None })
+    }
+}
+
+fn direct(ts: [u64; 4]) -> Result<Option<InternalMeasurement<NtpDuration>>, String> {
+    let (mut w, inner, _rx) = two_way();
+    util::catch(|| {
+        w.handle_measurement(meas(ClockId::SYSTEM, ClockId(1), ts[0], ts[1]));
+        w.handle_measurement(meas(ClockId(1), ClockId::SYSTEM, ts[2], ts[3]));
+    })?;
+    let g = inner.lock().unwrap();
+    Ok(g.last)
+}
+
+fn one_way(remote: u64, local: u64) -> Result<Option<InternalMeasurement<()>>, String> {
+    let inner = Arc::new(Mutex::new(Rec::<()> { last: None, count: 0 }));
+    let (tx, _rx) = tokio::sync::mpsc::unbounded_channel();
+    let mut w = OneWaySourceControllerWrapper { id: ClockId(2), inner: inner.clone(), messages_for_system: tx };
+    util::catch(|| w.handle_measurement(meas(ClockId(2), ClockId::SYSTEM, remote, local)))?;
+    let g = inner.lock().unwrap();
+    Ok(g.last)
+}
+
+/// Compares one delivered measurement with the expectation; `sum2` = the exact doubled offset (T2-T1)+(T3-T4) in real units.
+fn judge(path: &'static str, emb: &'static str, r: Result<Option<InternalMeasurement<NtpDuration>>, String>, sum2: i64, delay: i64, t4: u64,
+         fails: &mut Vec<Value>) {
+    match r {
+        Err(p) => fails.push(json!({"path": path, "emb": emb, "field": "panic", "panic": p})),
+        Ok(None) => fails.push(json!({"path": path, "emb": emb, "field": "missing"})),
+        Ok(Some(m)) => {
+            let trunc = sum2 / 2;
+            let floor = sum2.div_euclid(2);
+            let ceil = -((-sum2).div_euclid(2));
+            if m.offset != d(trunc) {
+                let field = if m.offset == d(floor) || m.offset == d(ceil) { "offset_rounding" } else { "offset" };
+                fails.push(json!({"path": path, "emb": emb, "field": field, "observed": dur_int(m.offset).to_string(), "expected_sum": sum2.to_string()}));
+            }
+            if m.delay != d(delay) {
+                fails.push(json!({"path": path, "emb": emb, "field": "delay", "observed": dur_int(m.delay).to_string(), "expected": delay.to_string()}));
+            }
+            if m.localtime != t(t4) {
+                fails.push(json!({"path": path, "emb": emb, "field": "localtime"}));
+            }
+        }
+    }
+}
+
+fn replay(job: &Value) {
+    let mut out = util::NdjsonOut::create(job["output"].as_str().unwrap());
+    let seed = job["seed"].as_u64().unwrap_or(0);
+    let mut rng = Rng::new(seed ^ 0xC05);
+    let mut e2e = E2e::new();
+    use std::io::BufRead;
+    let file = std::fs::File::open(job["input"].as_str().unwrap()).expect("input");
+    let (mut cases, mut evals, mut odd) = (0u64, 0u64, 0u64);
+    for line in std::io::BufReader::new(file).lines() {
+        let line = line.unwrap();
+        if line.trim().is_empty() {
+            continue;
+        }
+        let c: Value = serde_json::from_str(&line).unwrap();
+        let act = &c["act"];
+        let o = &c["out"];
+        cases += 1;
+        let mut fails: Vec<Value> = vec![];
+        let t1 = i(act, "t1");
+        let a = i(act, "a");
+        // bases of the "lo" embedding: zero (negative true times wrap below 2^64), the sign boundary, just below 2^64, random
+        let bases = [0u64, (1u64 << 63).wrapping_sub(t1 as u64 + 3), u64::MAX - 64, rng.next()];
+        let base = bases[(cases % 4) as usize];
+        if s(act, "t") == "twoway" {
+            let (b, cc) = (i(act, "b"), i(act, "c"));
+            let (sum, delay) = (i(o, "sum"), i(o, "delay"));
+            odd += (sum % 2 != 0) as u64;
+            // hi: the model's words shifted to the top of the 64-bit word
+            let hi = [(t1 as u64) << 56, (i(o, "t2") as u64) << 56, (i(o, "t3") as u64) << 56, (i(o, "t4") as u64) << 56];
+            judge("direct", "hi", direct(hi), sum << 56, delay << 56, hi[3], &mut fails);
+            judge("e2e", "hi", e2e.exchange(hi), sum << 56, delay << 56, hi[3], &mut fails);
+            // lo: true (unwrapped) times added to a base
+            let u = [t1, t1 + a, t1 + a + b, t1 + a + b + cc];
+            let lo = [base.wrapping_add(u[0] as u64), base.wrapping_add(u[1] as u64), base.wrapping_add(u[2] as u64), base.wrapping_add(u[3] as u64)];
+            judge("direct", "lo", direct(lo), sum, delay, lo[3], &mut fails);
+            judge("e2e", "lo", e2e.exchange(lo), sum, delay, lo[3], &mut fails);
+            evals += 4;
+        } else {
+            let off = i(o, "offset");
+            let local = i(o, "local");
+            for (emb, remote_ts, local_ts, exp) in [
+                ("hi", (t1 as u64) << 56, (local as u64) << 56, off << 56),
+                ("lo", base.wrapping_add(t1 as u64), base.wrapping_add((t1 + a) as u64), off),
+            ] {
+                evals += 1;
+                match one_way(remote_ts, local_ts) {
+                    Err(p) => fails.push(json!({"path": "oneway", "emb": emb, "field": "panic", "panic": p})),
+                    Ok(None) => fails.push(json!({"path": "oneway", "emb": emb, "field": "missing"})),
+                    Ok(Some(m)) => {
+                        if m.offset != d(exp) {
+                            fails.push(json!({"path": "oneway", "emb": emb, "field": "offset", "observed": dur_int(m.offset).to_string(), "expected": exp.to_string()}));
+                        }
+                        if m.localtime != t(local_ts) {
+                            fails.push(json!({"path": "oneway", "emb": emb, "field": "localtime"}));
+                        }
+                    }
+                }
+            }
+        }
+        for mut f in fails {
+            f["id"] = c["id"].clone();
+            f["act"] = act.clone();
+            f["out"] = o.clone();
+            out.put(&f);
+        }
+    }
+    out.put(&json!({"summary": true, "cases": cases, "evaluations": evals, "odd_sums": odd}));
+    out.finish();
+}
+
+#[test]
+fn verif_measure() {
+    let job = util::job();
+    match s(&job, "mode").as_str() {
+        "replay" => replay(&job),
+        other => panic!("unknown mode {other}"),
+    }
+}
